@@ -156,6 +156,9 @@ func (c *cloner) Expr(e ast.Expr) ast.Expr {
 		sel.NamePos = c.pos(x.Sel.NamePos)
 		if o, ok := src.Uses[x.Sel]; ok {
 			c.info.Uses[&sel] = o
+			if v, isVar := o.(*types.Var); isVar && v.IsField() {
+				sel.Name = FieldName(v)
+			}
 		}
 		c.regExpr(x.Sel, &sel)
 		n := &ast.SelectorExpr{X: c.Expr(x.X), Sel: &sel}
@@ -202,6 +205,7 @@ func (c *cloner) Expr(e ast.Expr) ast.Expr {
 		if id, ok := x.Key.(*ast.Ident); ok {
 			if v, isVar := src.Uses[id].(*types.Var); isVar && v.IsField() {
 				k := *id
+				k.Name = FieldName(v)
 				c.info.Uses[&k] = v
 				key = &k
 			} else {
